@@ -14,7 +14,7 @@ from ..model import call_many
 from ..pool import guarded, run_cases
 
 THEOREMS = ["C07_cst_untouched", "C07_nothing_replaced_is_identity", "C07_one_node_replaced", "C07_header_reprint_shape",
-            "C07_header_reprint_refuted", "C07_return_removed_shape", "C07_return_added", "C07_return_examples", "C07_checker_sound",
+            "C07_header_reprint_refuted", "C07_return_removed_shape", "C07_return_added", "C07_return_examples", "C07_find_cst_first_match", "C07_find_cst_none", "C07_checker_sound",
             "C07_failure_atomic", "C07_order_nonvacuous"]
 FN_NAMES = ["compute", "render", "fetch", "cache", "route", "handler", "store", "merge"]
 CLS_NAMES = ["Alpha", "Beta", "Gamma"]
@@ -613,6 +613,16 @@ def header_cases(c):
         return out
     tree = ast.parse(src)
     fns = [n for n in ast.walk(tree) if isinstance(n, (ast.FunctionDef, ast.AsyncFunctionDef))]
+    # find_cst_at_ast on every definition of the module
+    from cdd.shared.ast_cst_utils import ast2cst, find_cst_at_ast
+    enc = [[n.line_no_start, n.line_no_end, type(n).__name__, getattr(n, "name", None)] for n in cst]
+    for d in [n for n in ast.walk(tree) if isinstance(n, (ast.FunctionDef, ast.AsyncFunctionDef, ast.ClassDef))][:12]:
+        kind = ast2cst.get(type(d).__name__, type(None)).__name__
+        if kind == "NoneType":
+            continue
+        with contextlib.redirect_stderr(io.StringIO()):
+            idx, found = find_cst_at_ast(cst, d)
+        out.append({"find": True, "cst": enc, "lineno": d.lineno, "kind": kind, "name": d.name, "impl": idx if found is not None else None})
     for i, node in enumerate(cst):
         if type(node).__name__ not in ("FunctionDefinitionStart",):
             continue
@@ -677,6 +687,15 @@ def worker(batch):
         st, hs = guarded(header_cases, c, 30)
         if st == "ok":
             hdrs += [(c, h) for h in hs]
+    finds = [(c, h) for c, h in hdrs if h.get("find")]
+    hdrs = [(c, h) for c, h in hdrs if not h.get("find")]
+    if finds:
+        ms = call_many("find_cst", [[h["cst"], h["lineno"], h["kind"], h["name"]] for _c, h in finds])
+        for (c, h), m in zip(finds, ms):
+            out["headers"] += 1
+            if m != h["impl"]:
+                out["corr"].append({"stage": "find_cst_at_ast", "lineno": h["lineno"], "kind": h["kind"], "name": h["name"], "impl": h["impl"], "model": m,
+                                    "cst_windows": [x for x in h["cst"] if x[3] == h["name"]]})
     rets = [(c, h) for c, h in hdrs if h.get("retype")]
     hdrs = [(c, h) for c, h in hdrs if not h.get("retype")]
     if rets:
